@@ -20,5 +20,15 @@ case $cfg in
     cmake "${COMMON[@]}" -DSANITIZERS=thread \
       "-DAPPEND_CPPFLAGS=-DABORT_ON_FAILED_ASSUME -DBITCOIN_VERIF_HOOKS -DDEBUG_LOCKORDER" \
       "-DAPPEND_LDFLAGS=-fuse-ld=lld" ;;
+  fz)
+    # coverage-guided tier: g++ trace-pc/trace-cmp instrumentation + covshim + clang's libFuzzer runtime (DESIGN.md §2)
+    mkdir -p "$B"
+    gcc -O2 -c "$V/harness/engine/covshim.c" -o "$B/covshim.o"
+    cp /usr/lib/llvm-14/lib/clang/14.0.6/lib/linux/libclang_rt.fuzzer-x86_64.a "$B/libvhfuzzer.a"
+    objcopy --weaken-symbol=__sanitizer_cov_trace_pc "$B/libvhfuzzer.a"
+    cmake "${COMMON[@]}" -DSANITIZERS=address,undefined -DVH_FUZZ_BUILD=ON "-DVH_FUZZ_RT=$B/libvhfuzzer.a" \
+      "-DAPPEND_CPPFLAGS=-DABORT_ON_FAILED_ASSUME -DBITCOIN_VERIF_HOOKS" \
+      "-DAPPEND_CXXFLAGS=-fno-sanitize-recover=undefined -fsanitize-coverage=trace-pc,trace-cmp" \
+      "-DAPPEND_CFLAGS=-fsanitize-coverage=trace-pc,trace-cmp" "-DAPPEND_LDFLAGS=-fuse-ld=lld $B/covshim.o" ;;
   *) echo "unknown cfg $cfg"; exit 2 ;;
 esac
